@@ -1,0 +1,8 @@
+//go:build !verif
+
+// Package verifhook provides named instrumentation points for the verification harness.
+// Without the "verif" build tag every function here is empty and is inlined away.
+package verifhook
+
+// Point marks an instrumentation site. No-op in production builds.
+func Point(site string, args ...int64) {}
